@@ -73,39 +73,36 @@ func containerPaths(n *model.Node, p []string, out *[][]string) {
 	}
 }
 
-// swapAt puts v at path p of n (names address dictionaries, numbers lists)
-// and returns what was there.
+// swapAt puts v at path p of n and returns what was there.
 func swapAt(n *model.Node, p []string, v *model.Node) *model.Node {
-	for len(p) > 1 {
-		n = nodeAt(n, p[:1])
-		p = p[1:]
-	}
-	if isNum(p[0]) {
-		i, _ := strconv.Atoi(p[0])
-		old := n.A[i]
-		n.A[i] = v
+	n = nodeAt(n, p[:len(p)-1])
+	s := p[len(p)-1]
+	if old, ok := n.D[s]; ok {
+		n.D[s] = v
 		return old
 	}
-	old := n.D[p[0]]
-	n.D[p[0]] = v
+	i, _ := strconv.Atoi(s)
+	old := n.A[i]
+	n.A[i] = v
 	return old
 }
 
-// nodeAt returns the node at path p, nil if there is none.
+// nodeAt returns the node at path p, nil if there is none. A component
+// addresses the named setting of that name, else (a number) the list position.
 func nodeAt(n *model.Node, p []string) *model.Node {
 	for _, s := range p {
 		if !n.IsSub() {
 			return nil
 		}
-		if isNum(s) {
-			i, _ := strconv.Atoi(s)
-			if i >= len(n.A) {
-				return nil
-			}
-			n = n.A[i]
-		} else {
-			n = n.D[s]
+		if c, ok := n.D[s]; ok {
+			n = c
+			continue
 		}
+		i, err := strconv.Atoi(s)
+		if err != nil || i < 0 || i >= len(n.A) {
+			return nil
+		}
+		n = n.A[i]
 	}
 	return n
 }
@@ -123,7 +120,7 @@ func buildRefTree(r *rand.Rand, a *model.Node, fos []fopt, decoys []decoy) (*mod
 		hit := false
 		for _, f := range fos {
 			if isDoubleStar(f.path) {
-				if contains(q, f.path[1]) {
+				if contains(q, last(f.path)) {
 					hit = true
 				}
 			} else if related(q, f.path) {
